@@ -256,8 +256,7 @@ def r2_finalize_normally(report, repo):
 # ---- R3: finalize_from_phase_outcome
 
 
-def r3_from_outcome(report, repo):
-  rule = 'C01-R3'
+def r3_from_outcome(report, repo, rule='C01-R3'):
   report.rule(rule, 'T-DTABLE + T-AGREE: finalize_from_phase_outcome: exception '
               '-> ERROR (FAIL iff failure exception), timeout -> TIMEOUT, STOP '
               '-> FAIL; every disjunct of PhaseExecutionOutcome.is_terminal has '
@@ -843,3 +842,6 @@ def run(report, repo):
   # diagnosis: each diagnosis reaches the store and the record (shared C02-R7d)
   from sa.rules import c02  # pylint: disable=g-import-not-at-top
   report.guard(c02.r7_diagnoses, report, repo, rule='C01-R12')
+  from sa.rules import extra4  # pylint: disable=g-import-not-at-top
+  report.guard(extra4.with_args_keeps_validators, report, repo, 'C01-R13')
+  report.guard(c05.r4_run_if, report, repo, rule='C01-R14')
